@@ -767,6 +767,31 @@ macro_rules! ljm {
         ($(($f)(),)+)
     }};
 }
+/// transposing joiner for `transpose_results(false)`: the tuple of Results becomes the Result of the tuple
+pub trait Transpose {
+    type Out;
+    fn transpose(self) -> Self::Out;
+}
+macro_rules! impl_transpose {
+    ($( ($($t:ident $v:ident),+) ),+) => {$(
+        impl<$($t),+, X> Transpose for ($(Result<$t, X>,)+) {
+            type Out = Result<($($t,)+), X>;
+            fn transpose(self) -> Self::Out {
+                let ($($v,)+) = self;
+                Ok(($($v?,)+))
+            }
+        }
+    )+};
+}
+impl_transpose! { (A a, B b), (A a, B b, C c), (A a, B b, C c, D d), (A a, B b, C c, D d, E e) }
+#[macro_export]
+macro_rules! tjm {
+    ($($f:expr),+) => {{
+        let __t = ($($f,)+);
+        $crate::joiner_ev($crate::count_exprs!($($f),+), false);
+        $crate::Transpose::transpose(__t)
+    }};
+}
 /// async joiners are macros that await inside (as the README shows)
 #[macro_export]
 macro_rules! aj {
@@ -1483,6 +1508,8 @@ pub fn main_loop(table: &[(&str, Prog)]) {
         header.insert("plan".into(), r["plan"].clone());
         header.insert("gates".into(), r["gates"].clone());
         header.insert("count".into(), json!(r["count"].as_bool().unwrap_or(false)));
+        header.insert("sched".into(), r["sched"].clone());
+        header.insert("auto_release".into(), json!(r["auto_release"].as_bool().unwrap_or(false)));
         let rs = RunSpec { header: Value::Object(header), plan, gates };
         begin_run(&rs);
         let sched: Vec<Value> = r["sched"].as_array().cloned().unwrap_or_default();
